@@ -31,6 +31,13 @@ install_data('data/z.txt', 'data/a.txt', install_dir: get_option('datadir') / 'r
 install_headers('inc/pub_z.h', 'inc/pub_a.h', subdir: 'rich')
 install_man('man/rich.1', 'man/arich.3')
 install_subdir('tree', install_dir: get_option('datadir') / 'rich')
+eu = environment()
+eu.unset('UNSET_Z')
+eu.unset('UNSET_A')
+eu.unset('UNSET_M')
+eu.set('SETV', '1')
+custom_target('envct', output: 'envct.txt', command: ['sh', '-c', 'echo x'], capture: true, env: eu)
+run_target('envrt', command: ['true'], env: eu)
 e = environment({'ZED': '1', 'ABC': '2'})
 e.append('PATHISH', 'x', 'y')
 e.prepend('LAST', 'l')
